@@ -176,12 +176,15 @@ func (s *SweepingProvider) worker() {
 		// enqueue the multihash a second time to the provide queue.
 		s.executeOperation(func(keys ...mh.Multihash) error { return s.Provider.StartProviding(true, keys...) }, ops[forceStartProvidingOp])
 		s.executeOperation(func(keys ...mh.Multihash) error { return s.Provider.StartProviding(false, keys...) }, ops[startProvidingOp])
-		s.executeOperation(s.Provider.ProvideOnce, ops[provideOnceOp])
-		// Process `StopProviding` last, so that multihashes that should have been
-		// provided, and then stopped provided in the same batch are provided only
-		// once. Don't `StopProviding` multihashes, for which `StartProviding` has
-		// been called after `StopProviding`.
+		// Process `StopProviding` after the start operations, so that multihashes
+		// that should have been provided, and then stopped provided in the same
+		// batch are provided only once. Don't `StopProviding` multihashes, for
+		// which `StartProviding` has been called after `StopProviding`.
 		s.executeOperation(s.Provider.StopProviding, ops[stopProvidingOp])
+		// Process `ProvideOnce` last: StopProviding also removes its keys from the
+		// provide queue, and must not cancel a one-off provide requested for the
+		// same multihash in the same batch.
+		s.executeOperation(s.Provider.ProvideOnce, ops[provideOnceOp])
 	}
 }
 
